@@ -91,14 +91,14 @@ theorem linePart_spec (e : Enc) (la : Int) (h1 : -128 ≤ e.lineBase) (h2 : e.li
     (hla : -(2 ^ 63 : Int) ≤ la ∧ la < 2 ^ 63) :
     ∃ (pl : Int) (is : List WInstr),
       linePart e la = (13 + (pl - e.lineBase).toNat, decide (pl ≠ 0), is) ∧
-      e.lineBase ≤ pl ∧ pl < e.lineBase + e.lineRange ∧
+      e.lineBase ≤ pl ∧ pl < e.lineBase + e.lineRange ∧ 13 + (pl - e.lineBase).toNat ≤ 255 ∧
       ((pl = la ∧ is = []) ∨ (pl = 0 ∧ is = [.advanceLine la])) := by
   unfold linePart
   rw [specialDefault_eq e h1 h2]
   have hb := ofI64_nonpos e.lineBase h1 h2
   by_cases hz : la = 0
   · subst hz
-    refine ⟨0, [], ?_, h2, by omega, Or.inl ⟨rfl, rfl⟩⟩
+    refine ⟨0, [], ?_, h2, by omega, by omega, Or.inl ⟨rfl, rfl⟩⟩
     simp
   · simp only [ne_eq, hz, not_false_eq_true, ↓reduceIte, opcodeBase]
     have hsl : (Leb.ofI64 la + 2 ^ 64 - Leb.ofI64 e.lineBase) % 2 ^ 64 =
@@ -107,14 +107,17 @@ theorem linePart_spec (e : Enc) (la : Int) (h1 : -128 ≤ e.lineBase) (h2 : e.li
       unfold Leb.ofI64
       split <;> split <;> omega
     rw [hsl]
-    by_cases hin : e.lineBase ≤ la ∧ la < e.lineBase + e.lineRange
-    · refine ⟨la, [], ?_, hin.1, hin.2, Or.inl ⟨rfl, rfl⟩⟩
+    by_cases hin : (e.lineBase ≤ la ∧ la < e.lineBase + e.lineRange) ∧ 13 + (la - e.lineBase).toNat ≤ 255
+    · refine ⟨la, [], ?_, hin.1.1, hin.1.2, hin.2, Or.inl ⟨rfl, rfl⟩⟩
       have : (la - e.lineBase).toNat < e.lineRange := by omega
-      simp [hin.1, this, hz]
-    · refine ⟨0, [.advanceLine la], ?_, h2, by omega, Or.inr ⟨rfl, rfl⟩⟩
-      have : ¬ ((if e.lineBase ≤ la then (la - e.lineBase).toNat else (2 ^ 64 + (la - e.lineBase)).toNat) < e.lineRange) := by
+      simp [hin.1.1, this, hz, hin.2]
+    · refine ⟨0, [.advanceLine la], ?_, h2, by omega, by omega, Or.inr ⟨rfl, rfl⟩⟩
+      have : ¬ ((if e.lineBase ≤ la then (la - e.lineBase).toNat else (2 ^ 64 + (la - e.lineBase)).toNat) < e.lineRange ∧
+          13 + (if e.lineBase ≤ la then (la - e.lineBase).toNat else (2 ^ 64 + (la - e.lineBase)).toNat) ≤ 255) := by
         split <;> omega
-      rw [if_neg this]
+      generalize (if e.lineBase ≤ la then (la - e.lineBase).toNat else (2 ^ 64 + (la - e.lineBase)).toNat) = X
+        at this ⊢
+      simp only [this, ↓reduceIte]
       simp
 
 theorem specialFor_eq (special lr oa : Nat) :
@@ -139,7 +142,7 @@ theorem mulM_ok (m : Mode) (a b : Nat) (h : a * b < 2 ^ 64) : mulM m a b = .ok (
 
 /-- `opPart`: the pending operation advance `po` that the final special opcode will carry -/
 theorem opPart_spec (m : Mode) (e : Enc) (x : Nat) (us : Bool) (oa : Nat) (hx : x < e.lineRange)
-    (hlr : e.lineRange ≤ 243) :
+    (hlr : 13 + x ≤ 255) :
     ∃ (po : Nat) (us' : Bool) (is : List WInstr),
       opPart m e (13 + x) us oa = .ok (13 + x + po * e.lineRange, us', is) ∧
       13 + x + po * e.lineRange ≤ 255 ∧
@@ -301,7 +304,7 @@ theorem finalPart_spec (m : Mode) (e : Enc) (h : Params) (ha : Agrees h e) (vers
 theorem advanceInstrs_trace (m : Mode) (e : Enc) (h : Params) (ha : Agrees h e) (version : Nat)
     (r : Row) (la : Int) (oa : Nat)
     (h1 : -128 ≤ e.lineBase) (h2 : e.lineBase ≤ 0) (hr : 0 < e.lineBase + e.lineRange)
-    (hlr : e.lineRange ≤ 243)
+    (hlr : e.lineRange ≤ 255)
     (hla : -(2 ^ 63 : Int) ≤ la ∧ la < 2 ^ 63) (hl : r.line < 2 ^ 64)
     (hl2 : 0 ≤ (r.line : Int) + la ∧ (r.line : Int) + la < 2 ^ 64)
     (hnt : r.tombstone = false) (hsz : h.addrSize ≤ 8) (hmax1 : 1 ≤ h.maxOps)
@@ -311,9 +314,9 @@ theorem advanceInstrs_trace (m : Mode) (e : Enc) (h : Params) (ha : Agrees h e) 
       traceInstrs h r (is.map (WInstr.toInstr version) ++ rest) =
         Ev.row (advBy h { r with line := ((r.line : Int) + la).toNat } oa) ::
           traceInstrs h (reset h (advBy h { r with line := ((r.line : Int) + la).toNat } oa)) rest := by
-  obtain ⟨pl, lis, hL, hlo, hhi, hlcase⟩ := linePart_spec e la h1 h2 hr (by omega) hla
+  obtain ⟨pl, lis, hL, hlo, hhi, hp255, hlcase⟩ := linePart_spec e la h1 h2 hr hlr hla
   obtain ⟨po, us', ois, hO, hle, hocase⟩ :=
-    opPart_spec m e (pl - e.lineBase).toNat (decide (pl ≠ 0)) oa (by omega) hlr
+    opPart_spec m e (pl - e.lineBase).toNat (decide (pl ≠ 0)) oa (by omega) hp255
   have hob : h.opcodeBase = 13 := ha.2.2.2.2.2
   have hlrg : h.lineRange = e.lineRange := ha.2.2.2.2.1
   have hpo : po ≤ oa := by
@@ -504,7 +507,8 @@ theorem pointer_arith (mn mx prevOff off prevOp op : Nat) (_hmn : 1 ≤ mn) (hmx
 theorem linePart_noSpecial (e : Enc) (la : Int) (op : Nat) : WInstr.special op ∉ (linePart e la).2.2 := by
   unfold linePart
   by_cases h0 : la ≠ 0
-  · by_cases h1 : (Leb.ofI64 la + 2 ^ 64 - Leb.ofI64 e.lineBase) % 2 ^ 64 < e.lineRange
+  · by_cases h1 : (Leb.ofI64 la + 2 ^ 64 - Leb.ofI64 e.lineBase) % 2 ^ 64 < e.lineRange ∧
+        opcodeBase + (Leb.ofI64 la + 2 ^ 64 - Leb.ofI64 e.lineBase) % 2 ^ 64 ≤ 255
     · simp [h0, h1]
     · simp [h0, h1]
   · simp [h0]
@@ -602,16 +606,16 @@ theorem lineAdvance_range (m : Mode) (a b : Nat) (la : Int) (h : lineAdvance m a
       unfold wrapI64
       omega
 
-/-- with a `LineEncoding` that `new` accepts in debug builds (more generally `line_range ≤ 243`),
-in any build mode, the special opcode pushed is in 13..255 -/
+/-- with any `LineEncoding` that `new` accepts, in any build mode, the special opcode pushed is in
+13..255 -/
 theorem advanceInstrs_special_range (m : Mode) (e : Enc) (la : Int) (oa : Nat) (is : List WInstr)
     (h1 : -128 ≤ e.lineBase) (h2 : e.lineBase ≤ 0) (hr : 0 < e.lineBase + e.lineRange)
-    (hlr : e.lineRange ≤ 243) (hla : -(2 ^ 63 : Int) ≤ la ∧ la < 2 ^ 63)
+    (hlr : e.lineRange ≤ 255) (hla : -(2 ^ 63 : Int) ≤ la ∧ la < 2 ^ 63)
     (h : advanceInstrs m e la oa = .ok is) (op : Nat) (hm : WInstr.special op ∈ is) :
     13 ≤ op ∧ op ≤ 255 := by
-  obtain ⟨pl, lis, hL, hlo, hhi, _⟩ := linePart_spec e la h1 h2 hr (by omega) hla
+  obtain ⟨pl, lis, hL, hlo, hhi, hp255, _⟩ := linePart_spec e la h1 h2 hr hlr hla
   obtain ⟨po, us', ois, hO, hle, _⟩ :=
-    opPart_spec m e (pl - e.lineBase).toNat (decide (pl ≠ 0)) oa (by omega) hlr
+    opPart_spec m e (pl - e.lineBase).toNat (decide (pl ≠ 0)) oa (by omega) hp255
   obtain ⟨s, us, ois', hF, hO'⟩ := advanceInstrs_special_mem m e la oa is h op hm
   rw [hL] at hO'
   simp only at hO'
